@@ -509,7 +509,9 @@ func init() {
 		})
 		iEng := find(0, func(s ast.Stmt) bool { return src(s) == "results := db.SearchUniversal(query, searchOptions)" })
 		x.Assert("cli:engine-call", iEng > iOpt && iBoost > iOpt && iBoost < iEng && count(".SearchUniversal") == 1 &&
-			find(iVQ+3, func(s ast.Stmt) bool { return strings.HasPrefix(src(s), "query =") || strings.HasPrefix(src(s), "query :=") }) < 0,
+			find(iVQ+3, func(s ast.Stmt) bool {
+				return strings.HasPrefix(src(s), "query =") || strings.HasPrefix(src(s), "query :=")
+			}) < 0,
 			"expected `if projectContext != nil { searchOptions.ContextBoosts = ... }` then `results := db.SearchUniversal(query, searchOptions)` with `query` not reassigned after validation")
 		// ---- 5. recovery block
 		wantRec := "if len(results) == 0 { searchRecovery := recovery.NewSearchRecovery() " +
